@@ -55,6 +55,7 @@ StepStore(rec) ==
    /\ UNCHANGED <<st, tree>>
    /\ aux' = [OK EXCEPT !.rootEq = (rec.rootEq /\ rec.sameState # "false"),
                         !.complete = (rec.proofsAccepted = rec.proofsTried /\ rec.proofErr = ""),
+                        !.sound = (rec.falseAccepted = 0),
                         !.noerr = (rec.err = "")]
    /\ last' = [a |-> "Store"]
 
